@@ -1,6 +1,7 @@
 package main
 
 import (
+	"sort"
 	"crypto/ecdsa"
 	"encoding/binary"
 	"fmt"
@@ -258,6 +259,30 @@ func (w *World) BuildGenesis() types.AppState {
 			}
 			st.FrozenFunds = append(st.FrozenFunds, ff)
 			volumes[coin] = new(big.Int).Add(volOr0(volumes, coin), v)
+		}
+		if o.Candidates > 100 {
+			// more than 100 candidates: the weakest ones are removed at the first stake recalculation (height % period == 0).
+			// Stake moves in flight towards them mature after that: BeginBlock must unbond them (fix for F9).
+			idx := make([]int, 0, len(st.Candidates))
+			for i := o.ValidatorN; i < len(st.Candidates); i++ {
+				idx = append(idx, i)
+			}
+			sort.SliceStable(idx, func(a, b int) bool {
+				return bi(st.Candidates[idx[a]].TotalBipStake).Cmp(bi(st.Candidates[idx[b]].TotalBipStake)) < 0
+			})
+			src := st.Candidates[0]
+			for k := 0; k < 8 && k < len(idx); k++ {
+				to := st.Candidates[idx[k]]
+				coin := uint64(0)
+				if k%3 == 2 {
+					coin = 1
+				}
+				v := new(big.Int).Add(pip(50+int64(r.Intn(3000))), big.NewInt(int64(r.Intn(100))))
+				pk := src.PubKey
+				st.FrozenFunds = append(st.FrozenFunds, types.FrozenFund{Height: uint64(InitialHeight + 10 + r.Intn(24)), Address: w.Addrs[r.Intn(len(w.Addrs))],
+					CandidateKey: &pk, CandidateID: src.ID, Coin: coin, Value: v.String(), MoveToCandidateID: to.ID})
+				volumes[coin] = new(big.Int).Add(volOr0(volumes, coin), v)
+			}
 		}
 		for i := range st.FrozenFunds { // export order: by height
 			for j := i + 1; j < len(st.FrozenFunds); j++ {
